@@ -20,6 +20,7 @@ RULE = (
     "call, every stored result's raw fields equal their snapshot, every attribute read equals the value a fresh "
     "result gives when read first, a repeated compute()/single-bin request equals the first; (c) attribute-access "
     "permutations: a fresh result read in a drawn permutation of all attribute names gives the canonical values "
+    "(rtol 1e-13; the machine also creates and uses unrelated analyzers in between: rule other_analyzer) "
     "(rtol 1e-13). Non-trivial: t>=2 with a bin of K>=4t segments (a); machine runs containing a full and a "
     "single-bin computation and >=1 thread/chunk change (b); non-identity permutations (c)."
 )
